@@ -525,11 +525,16 @@ func (e *c14Env) body(op *c14Op) Body {
 	return b
 }
 
-// the revision id db.Put will create on parent (same computation as Put)
-func (e *c14Env) putRev(op *c14Op, parent string) string {
+// the revision id db.Put will create on parent at the given attempt (same computation as Put).  Put's callback
+// deletes "_deleted" from the request body it captured AFTER hashing it, so from the second invocation on the
+// hash no longer covers that property: a retried tombstone gets a different id than an unretried one.
+func (e *c14Env) putRev(op *c14Op, parent string, attempt int) string {
 	b := e.body(op)
 	delete(b, BodyRev)
 	delete(b, BodyAttachments)
+	if attempt > 1 {
+		delete(b, BodyDeleted)
+	}
 	stripped, _ := StripInternalProperties(b)
 	canon, err := base.JSONMarshalCanonical(stripped)
 	if err != nil {
@@ -575,7 +580,7 @@ func (e *c14Env) opDesc(op *c14Op, what string, rev string, out string) any {
 }
 
 // the revision id a Try/Write event of op carries, given the document as it is now
-func (e *c14Env) expectedRev(op *c14Op) string {
+func (e *c14Env) expectedRev(op *c14Op, attempt int) string {
 	if op.push {
 		return op.pushRev
 	}
@@ -588,7 +593,7 @@ func (e *c14Env) expectedRev(op *c14Op) string {
 			}
 		}
 	}
-	return e.putRev(op, parent)
+	return e.putRev(op, parent, attempt)
 }
 
 func c14Classify(err error, cancelled bool) string {
@@ -634,11 +639,31 @@ func (e *c14Env) runOp(op *c14Op, competitors func(attempt int) []*c14Op) string
 			// this attempt has run its callback (attachments uploaded); whether it loses the CAS race depends
 			// on the competitors -- either way "Try" describes what has happened so far
 			e.lostAtt[op.doc] = true
-			e.record("Try", op, e.expectedRev(op), "OAck")
+			e.record("Try", op, e.expectedRev(op, n), "OAck")
+			if !op.push && op.parent == "" {
+				// Put resolves a missing parent (the deleted current revision) in its first callback invocation
+				// and keeps that choice (matchRev is captured by the callback): later attempts behave exactly
+				// like a request that named the parent
+				if d := e.last.docs[op.doc]; d.exists && d.cur != "" {
+					if l := d.leaf(d.cur); l != nil && l.deleted {
+						op.parent = d.cur
+					}
+				}
+			}
 			for _, c := range comps {
 				e.runOp(c, nil)
 			}
 			return nil
+		}
+	}
+	attempts := 0
+	if competitors != nil {
+		inner := e.fs.onAttempt
+		e.fs.onAttempt = func(key string, n int, cbErr error) error {
+			if key == docid {
+				attempts = n
+			}
+			return inner(key, n, cbErr)
 		}
 	}
 	var rev string
@@ -661,10 +686,13 @@ func (e *c14Env) runOp(op *c14Op, competitors func(attempt int) []*c14Op) string
 		out = "OUnsupported"
 	}
 	evRev := rev
+	if attempts > 1 && op.deleted && !op.push && out == "OAck" {
+		e.rec.Count("quirk", "put-tombstone-retry-changes-revid", rev, false)
+	}
 	if out != "OAck" || evRev == "" {
-		evRev = e.expectedRev(op)
+		evRev = e.expectedRev(op, attempts)
 	} else if !op.push {
-		if want := e.expectedRev(op); want != rev {
+		if want := e.expectedRev(op, attempts); want != rev {
 			// the id is an input of the model; make sure the harness and the code agree on how it is built
 			e.failRec("write_outcome", "revid-differs", e.failInput(), fmt.Sprintf("Put created %s, harness expected %s", rev, want))
 		}
@@ -761,7 +789,13 @@ func (e *c14Env) monitors(kind string, op *c14Op, rev, out string, prev, now *c1
 		case a.isData:
 			exp[c14Names[a.name]] = e.contentDigest(a.content)
 		case a.tracked:
+			// "the same as my parent's": inherit what the parent's writer meant (unknown stays unknown)
 			exp[c14Names[a.name]] = a.digest
+			if pe, ok := e.expect[di][op.parent]; ok {
+				if g, has := pe[c14Names[a.name]]; has {
+					exp[c14Names[a.name]] = g
+				}
+			}
 		default:
 			exp[c14Names[a.name]] = ""
 		}
@@ -794,6 +828,11 @@ func (e *c14Env) monitors(kind string, op *c14Op, rev, out string, prev, now *c1
 			continue
 		}
 		for n, g := range ex {
+			if g == "" {
+				// a stub that did not repeat the parent's entry (adversarial stream): the writer named data the
+				// document may never have had, with a revpos of its own choosing -- nothing is promised for it
+				continue
+			}
 			m, has := l.atts[n]
 			if !has {
 				fail("written_intact", "leaf-attachment-lost", fmt.Sprintf("doc %d leaf %s was written with attachment %s but a reader no longer gets it", di, l.rev, n))
@@ -992,10 +1031,12 @@ func (e *c14Env) genOp(r *vRand, doc int, adversarial bool, noTombstone bool) *c
 		op.pushRev = fmt.Sprintf("%d-%016x%016x", gen+1, r.U64(), r.U64())
 		if r.Chance(4) && len(d.all) > 0 {
 			// push a revision the document already has: nothing to add
+			var ids []string
 			for id := range d.all {
-				op.pushRev = id
-				break
+				ids = append(ids, id)
 			}
+			sort.Strings(ids)
+			op.pushRev = ids[r.Intn(len(ids))]
 			op.parent = ""
 			op.label = "push-known-revision"
 		}
